@@ -614,3 +614,50 @@ func TestT10bInvalidDistSymbol(t *testing.T) {
 		}
 	}
 }
+
+// 14: C11 the end of the stream must be reported without the source delivering anything further
+// (raw flate: a source that blocks right after the last byte; zlib: trailer delivered with the last bytes).
+func TestT14EOFWithoutMoreInput(t *testing.T) {
+	mkFlate := func() []byte {
+		var b bytes.Buffer
+		w, _ := stdflate.NewWriter(&b, 6)
+		w.Write([]byte("the whole answer"))
+		w.Close()
+		return b.Bytes()
+	}
+	mkZlib := func() []byte {
+		var b bytes.Buffer
+		w := stdzlib.NewWriter(&b)
+		w.Write([]byte("the whole answer"))
+		w.Close()
+		return b.Bytes()
+	}
+	run := func(name string, open func(io.Reader) (io.Reader, error), stream []byte) {
+		pr, pw := io.Pipe()
+		go pw.Write(stream) // never closed: the producer keeps the connection open
+		type res struct {
+			s   string
+			err error
+		}
+		done := make(chan res, 1)
+		go func() {
+			r, err := open(pr)
+			if err != nil {
+				done <- res{"", err}
+				return
+			}
+			b, err := io.ReadAll(r)
+			done <- res{string(b), err}
+		}()
+		select {
+		case g := <-done:
+			if g.s != "the whole answer" || g.err != nil {
+				t.Errorf("%s: got %q %v", name, g.s, g.err)
+			}
+		case <-time.After(2 * time.Second):
+			t.Errorf("%s: the complete stream was delivered but io.EOF is not reported until the source delivers more", name)
+		}
+	}
+	run("flate", func(r io.Reader) (io.Reader, error) { return flate.NewReader(r), nil }, mkFlate())
+	run("zlib", func(r io.Reader) (io.Reader, error) { rc, err := zlib.NewReader(r); return rc, err }, mkZlib())
+}
